@@ -48,16 +48,25 @@ def _c13_nontrivial(sess, real):
     return any(l.startswith("trace ") and "hdr" in l and "," in l for l in real)
 
 PROPS["C13"] = {
-    "technique": "Lean 4 theorems (closed form of the writer state machine, all op sequences) + differential correspondence with the real responseWriter",
+    "technique": "Lean 4 theorems (closed form of the writer state machine, all op sequences); tie to the source of both kinds: the method bodies of response_writer.go are translated to Lean on every run and proved to refine the machine for all states (code-level refinement), and the real responseWriter is run against the model (differential correspondence)",
     "level_text": "Every clause of C13 is a Lean theorem over Model/Writer for all operation sequences, methods and short writes "
                   "(closed form in terms of the first trigger); the model is tied to response_writer.go by an exhaustive-to-depth "
                   "and random differential check against a spy writer on every run. Stacks of two writers (a flamego writer wrapping "
                   "another one: mounted applications, sub-requests) are modelled too (Model/WriterNest): stack_projects shows each "
                   "level is an ordinary writer on an operation sequence of its own, so every clause holds at both levels "
                   "(stack_client_one_status, stack_client_status_first, stack_levels_truthful, stack_head_no_body); exhaustive and "
-                  "random two-level sessions over all four method pairs are compared on every run.",
-    "level_note": "Trusted: Lean kernel; the model is hand-written and tied by differential testing only; hooks are observers; codes 100..999.",
+                  "random two-level sessions over all four method pairs are compared on every run. "
+                  "CODE-LEVEL TIE: /verif/translator (gocode.go) regenerates Gen/WriterCode.lean from response_writer.go on every run — "
+                  "the struct field by field, NewResponseWriter, callBefore, WriteHeader, Write, Flush, Before, Status, Size, Written as "
+                  "pure state-passing functions — and Props/C13Code proves for ALL states, arguments and answers of the wrapped writer "
+                  "that each generated method is one step of Model/Writer (writeHeader_refines, write_refines, flush_refines …), hence "
+                  "for every call sequence (code_refines, code_is_machine) and every clause (code_at_most_one_status, "
+                  "code_status_before_body, code_status_truthful, code_size_truthful, code_written_iff, code_head_no_body). When the "
+                  "source leaves the translated subset or the refinement no longer checks, the evidence says so and the "
+                  "correspondence, run at thorough depth, is the tie that decides.",
+    "level_note": "Trusted: Lean kernel; the translator of method bodies (gocode.go) and its conventions (Code/GoSem.lean: environment objects answer arbitrarily, hooks are observers, integers do not wrap); the hand-written machine is additionally tied by differential testing; codes 100..999.",
     "props_modules": ["Flamego.Props.C13", "Flamego.Props.C13Nest", "Flamego.Props.C13Late"],
+    "code_modules": ["Flamego.Props.C13Code"],
     "suite": "C13",
     "stats": generic_stats(_c13_nontrivial,
         "sessions = operation sequences on one responseWriter (exhaustive to a depth over a 9-op alphabet for GET and HEAD, "
@@ -68,8 +77,15 @@ PROPS["C13"] = {
     "trusted_base": COMMON_TRUST + [
         "modelled, not verified: the wrapped http.ResponseWriter is a spy that accepts the number of bytes it is told to; "
         "hooks are observers (a hook calling back into the writer deadlocks on sync.Once in Go and is outside the model)",
-        "guard: status codes 100..999 (net/http panics on others)"],
-    "assumptions": ["sync.Once and atomic int32 behave sequentially within one request (single goroutine)"],
+        "guard: status codes 100..999 (net/http panics on others)",
+        "code-level tie: the Go→Lean translator of method bodies (translator/gocode.go, ~900 lines: a documented subset — field "
+        "updates, calls of own methods hoisted in evaluation order, if/return restructuring, sync.Once.Do as a done flag, "
+        "sync/atomic loads and stores as plain accesses, calls on the embedded interface as recorded environment calls with "
+        "arbitrary answers, the descending-index loop idiom) and Code/GoSem.lean; Hijack and Push are not translated (listed in "
+        "the generated file) and no clause of C13 speaks about them"],
+    "assumptions": ["sync.Once and atomic int32 behave sequentially within one request (single goroutine)",
+                    "the wrapped http.ResponseWriter is an http.Flusher and never reports a negative byte count (hypotheses "
+                    "`World` of the code-level theorems; both are facts of net/http's own writers)"],
 }
 
 
